@@ -21,6 +21,7 @@ LT == TrLeaf(<<"SP", "l", "TAB">>)              \* leading / trailing blanks
 E  == TrLeaf(<<>>)                              \* the empty string
 U  == TrLeaf(<<"U2">>)                          \* one 2-byte rune
 UU == TrLeaf(<<"U3", "SP", "U2", "U4">>)        \* multi-byte runes around a blank
+WS == TrLeaf(<<"a", "LF", "NB", "b", "EM", "EM", "c">>)   \* line break, no-break space, em spaces: Unicode white space, NOT blanks
 N  == TrLeafT("int", <<"4", "2">>)
 B  == TrLeafT("bool", <<"t", "r", "u", "e">>)
 
